@@ -37,6 +37,10 @@ def ref_terms(case, vec):
     spec = case['spec']
     ns, n_obs = case['n_samples'], case['n_obs']
     times = np.asarray(case['times'], dtype=float)
+    # presort: the caller re-arranged the filter's time points with sort_times(o)
+    # and passes the times in that arrangement; position j is original index o[j]
+    o_pre = np.array(case.get('presort') or list(range(len(times))))
+    times = times[o_pre]
     order = np.argsort(times)
     T = len(times)
     vec = np.asarray(vec)
@@ -71,7 +75,7 @@ def ref_terms(case, vec):
     # original time axis
     data = c12._arr(case['y'])
     sim_orig = np.zeros(y.shape, dtype=y.dtype)
-    sim_orig[..., order] = y
+    sim_orig[..., o_pre[order]] = y
     fl = rf.composed_total(_blocks(case), data, sim_orig)
     noise = -np.sum(eps ** 2) / 2
     prior = hier.ref_prior(vec[:n_top])
@@ -103,13 +107,17 @@ def build_posterior(case, f=None):
     ns, n_obs = case['n_samples'], case['n_obs']
     if f is None:
         f = build_filter(case)
+    times_arg = list(case['times'])
+    if case.get('presort'):
+        f.sort_times(list(case['presort']))
+        times_arg = [case['times'][k] for k in case['presort']]
     pop = popbuild.build(
         case['spec'], ns if case['spec']['kind'] == 'Red' else None)
     n_pop, n_sig, _ = layout(case)
     prior = hier.build_prior(n_pop + n_sig)
     cov = case['cov']
     return chi.PopulationFilterLogPosterior(
-        f, case['times'], ToyModel(N_DIM, n_obs), pop, prior,
+        f, times_arg, ToyModel(N_DIM, n_obs), pop, prior,
         sigma=case['sigma'], error_on_log_scale=case['log_scale'],
         n_samples=ns, covariates=None if cov is None else np.array(cov))
 
@@ -327,7 +335,8 @@ def build(tier, seed):
                         1 + (i % 2), seed, cov_vector=(i % 3 == 0)))
                     i += 1
     # full products on a few structures that place special dims first/middle/last
-    focus = [rp.Comp([rp.P(1), rp.G(1), rp.H(1)]),
+    focus = [rp.Comp([rp.Cov(rp.G(1), 2), rp.G(1, False), rp.P(1)]),
+             rp.Comp([rp.P(1), rp.G(1), rp.H(1)]),
              rp.Comp([rp.G(1, False), rp.P(1), rp.LN(1, False)]),
              rp.Comp([rp.H(1), rp.Cov(rp.G(1)), rp.P(1)]),
              rp.Comp([rp.LN(2, False), rp.P(1)]), rp.P(3), rp.H(3), rp.G(3, False)]
@@ -340,9 +349,22 @@ def build(tier, seed):
                         cases.append(make_case(
                             spec, filt, sigma_free, log_scale, ns,
                             [t3[k] for k in perm], 2, seed))
+    # the caller re-arranged the time points of the filter before handing it over
+    # (every order, elementary and composed filters, sorted and unsorted times)
+    pre = []
+    for spec in (rp.Comp([rp.G(1), rp.LN(1, False), rp.P(1)]), rp.G(3)):
+        for filt in filters:
+            for o in perms:
+                for perm in (perms[0], perms[4]) if tier == 'quick' else perms:
+                    c_ = make_case(spec, filt, False, False,
+                                   4 if 'GM' in str(filt) else 3,
+                                   [t3[k] for k in perm], 1 + (len(pre) % 2), seed)
+                    c_['presort'] = list(o)
+                    pre.append(c_)
     # every second case builds two posteriors from one filter object
     for k, c in enumerate(cases):
         c['reuse'] = (k % 2 == 1)
+    cases += pre
     # wrapped models: reduced (every subset of <= 2 fixed parameters) and covariate
     # models around pooled dimensions
     wrapped = []
